@@ -14,7 +14,7 @@ DECIDES = ('a knot vector of wrong length or decreasing order cannot reach stora
            '(strict >, all pairs covered), and returns True only after both tests (KC1); knotvector.generate returns degree + n + 1 knots on both '
            '`clamped` branches with end multiplicity degree + 1 when clamped (LY4); knotvector.normalize is the affine map (k - first)/(last - first) '
            '(AL8); both span searches implement half-open spans: comparison operators on the lower/upper knot are exactly (<, >=) resp. (<=) (HO1); '
-           'find_multiplicity compares absolute differences (TOL1); per-direction helper calls in helpers are direction-uniform (AX1); [ORDER TYPES, bounded box, exact per type] both span searches return exactly the half-open interval containing the parameter (the last non-empty one at the domain end) and agree with each other, find_multiplicity returns the number of equal knots, and knotvector.check accepts exactly the non-decreasing vectors of the right length - decided by interpreting the comparison-only skeleton of these functions over every knot order type of the box (OT1-OT3); the single-function routines return 1.0 in the boundary case, the literal 0.0 outside the half-open support, and never an untouched initial cell for derivative orders <= degree inside it, on every fork of their arithmetic zero tests (OT4); [SKEL, bounded] basis_function, basis_function_all and basis_function_ders are index-safe for degrees 1..7, every span and derivative orders 0..degree+2.')
+           'find_multiplicity compares absolute differences (TOL1); per-direction helper calls in helpers are direction-uniform (AX1); [ORDER TYPES, bounded box, exact per type] both span searches return exactly the half-open interval containing the parameter (the last non-empty one at the domain end) and agree with each other, find_multiplicity returns the number of equal knots, and knotvector.check accepts exactly the non-decreasing vectors of the right length - decided by interpreting the comparison-only skeleton of these functions over every knot order type of the box (OT1-OT3); the single-function routines return 1.0 in the boundary case, the literal 0.0 outside the half-open support, and never an untouched initial cell for derivative orders <= degree inside it, on every fork of their arithmetic zero tests (OT4); [SKEL, bounded] basis_function, basis_function_all and basis_function_ders are index-safe for degrees 1..7, every span and derivative orders 0..degree+2. the list variant find_spans returns for every parameter of a sorted list the span of the single-parameter search (OT1); a delegation wrapper that declares **kwargs forwards them, so the compatibility names in utilities honour clamped=False (KW1).')
 NOT_DECIDED = ('span search beyond the enumerated box and inside the tolerance windows, non-negativity, partition of unity, derivative sums, Cox-de Boor '
                'equality, order-preservation to rounding: all numerical.')
 TECHNIQUE = 'CFG dominance (guards), polynomial normal forms, comparison-operator lattice, symbolic length algebra'
